@@ -200,6 +200,27 @@ theorem version_step_exact (g0 : Graph V) (h0 : Init F g0) (ops : List (Op V)) (
       = ver (run F g0 ops).1 k + cnt (step F (run F g0 ops).1 op).2 k + bumps (run F g0 ops).1 op k :=
   version_step (run_inv h0.inv ops hv) op k
 
+/-- **version accounting for parameter messages**, at the level of `Set`: a message accepted by
+    `parameter.Value.ApplyMessage` (`= .setParam`, like `ValueNode.Set`) bumps the version of that
+    parameter by exactly one — also when the value is unchanged — and no other version; a message
+    the decoder rejects (`.rejectedMessage`) bumps nothing; neither executes anything.  Together
+    with `version_counts_executions` (where `setCount` counts exactly the accepted messages / Sets):
+    parameter version = initial + accepted messages, struct version = initial + executions -/
+theorem message_version_accounting (g0 : Graph V) (h0 : Init F g0) (ops : List (Op V)) (hv : Valid F g0 ops)
+    (p k : Nat) (v : V) :
+    ver (step F (run F g0 ops).1 (.rejectedMessage p)).1 k = ver (run F g0 ops).1 k ∧
+    (step F (run F g0 ops).1 (.rejectedMessage p)).2 = [] ∧
+    ver (step F (run F g0 ops).1 (.setParam p v)).1 k
+      = ver (run F g0 ops).1 k + (if p = k ∧ isParam ((run F g0 ops).1 p) = true then 1 else 0) ∧
+    (step F (run F g0 ops).1 (.setParam p v)).2 = [] := by
+  have hinv := run_inv h0.inv ops hv
+  have hlog : (step F (run F g0 ops).1 (.setParam p v)).2 = [] := by
+    simp only [step, step?]
+    cases (run F g0 ops).1 p <;> rfl
+  refine ⟨rfl, rfl, ?_, hlog⟩
+  rw [version_step hinv (.setParam p v) k, hlog]
+  simp [cnt, bumps]
+
 /-- the index `sn.depVersions[i]` in `Outdated()` never panics: whenever the flag is clear the
     remembered list has one entry per dependency (and each is `≤` the dependency's version) -/
 theorem remembered_length (g0 : Graph V) (h0 : Init F g0) (ops : List (Op V)) (hv : Valid F g0 ops) (i : Nat)
